@@ -8,7 +8,7 @@ from harness.core import lean, sp
 
 SPLITS = ["train", "test", "holdout"]
 FORMATS = ["fb", "npz", "tfrec"]
-BAD_KINDS = ["shape", "rank", "scalar", "dtype_unsafe", "missing", "container", "extra", "foreign"]
+BAD_KINDS = ["shape", "rank", "scalar", "dtype_unsafe", "missing", "container", "extra", "foreign", "float_integral", "uint64_small"]
 
 
 def md_value(code: int, style: int = 0):
@@ -107,6 +107,11 @@ def values_for(ex: int, kind: str, attrs):
     elif kind == "dtype_unsafe":
         # (for the id carrier the integer part still is the id, should a format accept the value)
         vals[target] = np.full(shape, (ex if target == "a" else 1) + 0.5, dtype=np.float64)
+    elif kind == "float_integral":
+        # a float array whose elements all happen to be whole numbers (np.zeros / np.eye rows, counters kept as floats)
+        vals[target] = np.full(shape, float(ex if target == "a" else ex % 100), dtype=np.float64)
+    elif kind == "uint64_small":
+        vals[target] = np.full(shape, ex if target == "a" else ex % 100, dtype=np.uint64)
     elif kind == "missing":
         del vals[target]
     elif kind == "container":
@@ -281,7 +286,7 @@ def must_reject(fmt: str, kind: str) -> bool | None:
         return False
     if kind in ("shape", "rank", "scalar", "container", "missing"):
         return True
-    if kind in ("dtype_unsafe", "foreign"):
+    if kind in ("dtype_unsafe", "foreign", "float_integral", "uint64_small"):
         return True if fmt == "fb" else None
     return None
 
